@@ -70,6 +70,7 @@ def main():
     prop = a.prop
     tier = a.tier if a.tier in ("quick", "thorough") else "quick"
     seed = int(os.environ.get("VERIF_SEED", "0") or 0)
+    os.environ["VERIF_TIER"] = tier
     t0 = time.time()
     mod = importlib.import_module(HARNESS[prop])
     tasks = mod.tasks(tier, seed)
